@@ -376,7 +376,7 @@ func (a *align) RemoveCharacterSites(c []uint8, cutoff float64, ends bool, ignor
 		cutoff = 0
 	}
 
-	toremove := make([]int, 0, a.Length())
+	toremove := make([]int, 0)
 	// To remove only positions with this character at start and ends positions
 	firstcontinuous := -1
 	lastcontinuous := a.Length()
